@@ -91,12 +91,41 @@ def run(ctx):
             ctx.violation("C18:stale-bytes-after-failed-write", f"after a refused write the next records were not encoded as they are on their own: {c[:160]}",
                           {"case": c[:600], "stream_received": r[:600], "encodings_on_their_own": w[:600]})
             break
+    # the manifest header (magic, length, JSON) through the real writer and reader, with a record behind it: names with JSON-significant
+    # characters, control characters, every multi-byte UTF-8 length, long paths, many items - and names that are not valid UTF-8 (legal
+    # file names on Linux)
+    def hexs(b):
+        return b.hex() or "-"
+    hcases, hkind = [], []
+    specials = [b"plain.txt", b"q\"uote", b"back\\slash", b"<&>", b"tab\there", b"nl\nname", "\u00e9\u65e5\U0001f600".encode(), "\u2028\u2029".encode(), b"\x7f", b" ", b"a" * 1024,
+                b"d/" + "\u65e5".encode() * 300]
+    for n in (0, 1, 3, 40 if ctx.tier == "quick" else 400):
+        items = []
+        for i in range(n):
+            nm = specials[rng.below(len(specials))] if rng.chance(1, 2) else G.valid_path(rng, rng.range(1, 60))
+            items += [hexs(nm + b"-%d" % i), str(rng.choice([0, 1, 2**31, 2**40 + 5, rng.below(10**9)])), str(rng.below(2)), hexs(b"%016x" % rng.below(2**63))]
+        hcases.append("hdrrt " + hexs(specials[rng.below(len(specials))]) + (" " + " ".join(items) if items else ""))
+        hkind.append("utf8")
+    for bad in (b"caf\xe9.txt", b"d/a\xff", b"\xc3", b"ok/\xed\xa0\x80"):
+        hcases.append("hdrrt " + hexs(b"root") + " " + " ".join([hexs(bad), "10", "0", hexs(b"0123456789abcdef")]))
+        hkind.append("non-utf8-name")
+    hcases.append("hdrrt " + hexs(b"ro\xffot") + " " + " ".join([hexs(b"f"), "1", "0", hexs(b"0123456789abcdef")]))
+    hkind.append("non-utf8-name")
+    hpath, hout = _os.path.join(ctx.workdir, "hdr.cases"), _os.path.join(ctx.workdir, "hdr.out")
+    open(hpath, "w").write("\n".join(hcases) + "\n")
+    rch = ctx.run_harness(exe, hpath, hout, timeout=300)
+    hres = open(hout).read().splitlines()
+    ctx.oblige("harness:header-roundtrip", rch == 0 and len(hres) == len(hcases), ctx.harness_stderr[-200:])
+    for c, k, r in zip(hcases, hkind, hres):
+        if not r.startswith("same "):
+            sig = "C18:header-roundtrip:non-utf8-name" if k == "non-utf8-name" else "C18:header-roundtrip"
+            ctx.violation(sig, f"the manifest header does not decode to the value that was written: {r[:200]}", {"case": c[:800], "result": r})
     kinds = {}
     for r in recs:
         kinds[r.split()[0]] = kinds.get(r.split()[0], 0) + 1
     rejected = sum(1 for o in impl if o.startswith("err"))
     ctx.coverage.update({
-        "evaluations": len(enc_cases) + len(dec_cases),
+        "evaluations": len(enc_cases) + len(dec_cases) + len(hcases), "manifest_headers_round_tripped": len(hcases),
         "distinct_nontrivial": len(valid) + len(seqs),
         "rule": "records generated per type with every numeric field in {0,1,max-1,max,random}, byte fields at {0,1,2,max-1,max,random} lengths "
                 "(paths at 1,2,1023,1024 and invalid ones), encoded by BOTH the real write* and the Lean encoder (byte equality), then decoded by BOTH "
@@ -105,7 +134,7 @@ def run(ctx):
         "records_per_kind": kinds, "encoder_rejections": rejected,
         "disagreements_model_vs_impl": len(d1) + len(d2),
     })
-    ctx.assumptions += ["manifest JSON inside the header is opaque bytes to the theorems (encoding/json is Go library code, exercised by C01/C03 runs, not proved)"]
+    ctx.assumptions += ["manifest JSON inside the header is opaque bytes to the theorems (encoding/json is Go library code: the header round trip is executed on generated manifests, not proved)"]
     return ctx.finish(LEVEL)
 
 
